@@ -17,7 +17,7 @@ Valid(s, p, c) ==
     /\ Len(p) >= 1 /\ \A i \in 1..Len(p) : p[i] >= 1
     /\ (s = "CGKO06.SSE1" => N(p) < c.s /\ Len(p) <= c.dsize)                       \* array / dictionary capacity
     /\ (s = "CJJ14.Pi2Lev" => /\ \A i \in 1..Len(p) : p[i] < c.B * c.Bp * c.bp     \* two-level limit
-                              /\ Pi2LevALen(p, c) <= 256 ^ c.idxw)
+                              /\ FitsWidth(Pi2LevALen(p, c), c.idxw))
 
 Iota(n) == [j \in 1..n |-> j]
 Range(f) == {f[x] : x \in DOMAIN f}
